@@ -7,6 +7,7 @@ import (
 	"github.com/relex/slog-agent/buffer/hybridbuffer"
 	"os"
 	"path/filepath"
+	"regexp"
 	"strings"
 	"testing"
 
@@ -75,7 +76,7 @@ func baseText(name string, spec *tprog.FileSpec) string {
 	case "minimal":
 		text = `anchors: []
 schema:
-  fields: [facility, level, time, host, app, pid, source, extradata, log, class]
+  fields: [facility, level, time, host, app, pid, source, extradata, log, class, origin]
   maxFields: 12
 inputs:
   - type: syslog
@@ -100,6 +101,9 @@ transformations:
     mapping:
       warn: WARNING
     default: OTHER
+  - type: addFields
+    fields:
+      extradata: from-$origin-${pid[:2]}
   - type: replace
     key: log
     pattern: 'a+'
@@ -392,6 +396,26 @@ func runCase(c Case) vh.Result {
 					res.Violation = vh.Fail("config:unknown-field-reference-accepted", "%s referenced the schema field %q; with the unknown name \"nosuchfield\" in its place the configuration is still accepted: the reference is not validated at load time", c.Mut.Site, f)
 					return res
 				}
+			}
+		}
+	}
+	// "every ... template variable ... is validated at load time": when a mutation takes a field out of the schema's field
+	// list (deleted, emptied or renamed) and a template elsewhere in the file still has $field / ${field...}, the file
+	// must be refused - whatever configurations this process has loaded before (the unmutated base always came first)
+	if strings.HasPrefix(c.Mut.Site, ".schema.fields") && (c.Base == "sample" || c.Base == "minimal") {
+		if n, _, _ := nodeAt(parseDoc(text), c.Mut.Path); n != nil && n.Value != "" {
+			gone := true
+			for _, f := range schemaFields(mutated) {
+				if f == n.Value {
+					gone = false
+				}
+			}
+			if gone && regexp.MustCompile(`\$\{?`+regexp.QuoteMeta(n.Value)+`([^A-Za-z0-9_]|$)`).MatchString(mutated) {
+				res.Violation = vh.Fail("config:template-variable-not-validated", "%s: the field %q is no longer in the schema (%s %q) but a template in the file still refers to it as a variable, and the configuration is accepted", c.Mut.Site, n.Value, c.Mut.Kind, c.Mut.Fault)
+				return res
+			}
+			if gone {
+				res.Classes = append(res.Classes, "schema-field-removed-and-accepted(no-template-refers-to-it)")
 			}
 		}
 	}
